@@ -123,13 +123,13 @@ func witnesses() {
 		}
 		if sawCallee && !sawCallerClosed {
 			variants[eng].Tj = 1
-			rep.Violate(hx.Violation{Kind: "impl-violation", Signature: "F25:" + eng + "-tail-caller-never-closed",
+			rep.Violate(hx.Violation{Kind: "impl-violation", Signature: "F32:" + eng + "-tail-caller-never-closed",
 				What:  eng + ": a function that leaves through return_call gets a Before and never an After/Abort: the tail call is a jump and the After trampoline emitted after the call is dead code",
 				Input: caseInput{Scenario: "witness-tail", Engine: eng, Listener: "all", Program: p}, Expected: "B1 B2 A2 A1 (or B1 A1 B2 A2)", Actual: got})
 		}
 		if !sawCallee {
 			variants[eng].Tip = 1
-			rep.Violate(hx.Violation{Kind: "impl-violation", Signature: "F24:" + eng + "-tail-callee-gets-no-listener-events",
+			rep.Violate(hx.Violation{Kind: "impl-violation", Signature: "F31:" + eng + "-tail-callee-gets-no-listener-events",
 				What:  eng + ": a function entered through return_call (same module) produces no Before/After: the caller's frame is rewritten in place and only the caller's listener fires (its After reports the callee's results)",
 				Input: caseInput{Scenario: "witness-tail", Engine: eng, Listener: "all", Program: p}, Expected: "B1 B2 A2 A1 (or B1 A1 B2 A2)", Actual: got})
 		}
